@@ -332,4 +332,953 @@ Proof.
     + intros i Hi Hn. contradiction.
 Qed.
 
+
+Lemma inv_set_phase : forall s g c k ep ph ph',
+  Inv s g -> calls s c = Some (mkC k ep ph) ->
+  (forall idxs fl, NoDup idxs -> fl <= egen (reorgs s) ep ->
+     phase_ok k ep idxs fl (egen (reorgs s) ep) (k_gen (ks s k)) (h_floor g k ep) ph ->
+     phase_ok k ep idxs fl (egen (reorgs s) ep) (k_gen (ks s k)) (h_floor g k ep) ph') ->
+  Inv (set_call s c (Some (mkC k ep ph'))) g.
+Proof.
+  intros s g c k ep ph ph' (Ia & Ir & If & Ie & Ic) Cs Hph. unfold Inv. simpl.
+  split; [assumption|]. split; [assumption|]. split; [assumption|]. split; [assumption|].
+  intro c'. unfold call_ok. simpl. destruct (Nat.eqb_spec c c') as [<-|Hne]; [|exact (Ic c')].
+  pose proof (Ic c) as X. unfold call_ok in X. rewrite Cs in X.
+  destruct (h_calls g c) as [gc|]; [|contradiction]. simpl in *.
+  destruct X as (A & B & C & D & E). repeat (split; [assumption|]). apply Hph; assumption.
+Qed.
+
+Lemma inv_drop_call : forall s g c l,
+  Inv s g -> (forall c', h_calls (gstep g l) c' = if Nat.eqb c c' then None else h_calls g c') ->
+  h_active (gstep g l) = h_active g -> h_reorgs (gstep g l) = h_reorgs g -> h_floor (gstep g l) = h_floor g ->
+  Inv (set_call s c None) (gstep g l).
+Proof.
+  intros s g c l (Ia & Ir & If & Ie & Ic) Hc Ha Hr Hf. unfold Inv. rewrite Ha, Hr, Hf. simpl.
+  split; [assumption|]. split; [assumption|]. split; [assumption|]. split; [assumption|].
+  intro c'. unfold call_ok. simpl. rewrite Hc, Hf. destruct (Nat.eqb_spec c c'); [exact I | exact (Ic c')].
+Qed.
+
+Lemma inv_fetch : forall s g c ans m s',
+  Inv s g -> step s (LFetch c ans m) = Some s' -> Inv s' g.
+Proof.
+  intros s g c ans m s' HI H. simpl in H.
+  destruct (calls s c) as [[k ep [cached req lgen| |]]|] eqn:Cs; try discriminate.
+  destruct (_ && _) eqn:E; [|discriminate]. inversion H; subst s'. clear H.
+  apply andb_true_iff in E. destruct E as [E1 E2]. apply dlist_eqb_eq in E1. apply N.eqb_eq in E2.
+  eapply inv_set_phase; [exact HI | exact Cs |].
+  intros idxs fl ND Hfl Hph. simpl in *. split; [assumption|].
+  exists (egen (reorgs s) ep). split; [lia|]. split; assumption.
+Qed.
+
+Lemma inv_fetcherr : forall s g c s',
+  Inv s g -> step s (LFetchErr c) = Some s' -> Inv s' (gstep g (LFetchErr c)).
+Proof.
+  intros s g c s' HI H. simpl in H.
+  destruct (calls s c) as [[k ep [cached req lgen| |]]|] eqn:Cs; try discriminate.
+  inversion H; subst s'. apply inv_drop_call; try reflexivity. assumption.
+Qed.
+
+Lemma inv_return : forall s g c res m s',
+  Inv s g -> step s (LReturn c res m) = Some s' ->
+  Inv s' (gstep g (LReturn c res m)) /\ check_ans g (LReturn c res m) = true.
+Proof.
+  intros s g c res m s' HI H. simpl in H.
+  destruct (calls s c) as [[k ep [| |r rm]]|] eqn:Cs; try discriminate.
+  destruct (_ && _) eqn:E; [|discriminate]. inversion H; subst s'. clear H.
+  apply andb_true_iff in E. destruct E as [E1 E2]. apply dlist_eqb_eq in E1. apply N.eqb_eq in E2. subst.
+  split; [apply inv_drop_call; try reflexivity; assumption|].
+  destruct HI as (Ia & Ir & If & Ie & Ic). pose proof (Ic c) as X. unfold call_ok in X. rewrite Cs in X.
+  simpl. destruct (h_calls g c) as [gc|]; [|reflexivity]. simpl in X.
+  destruct X as (A & B & C & D & E1 & E2 & E3). subst. rewrite <- Ir.
+  apply answer_ok_true; assumption.
+Qed.
+
+
+Lemma inv_reorg : forall s g e, Inv s g ->
+  Inv (mk (active s) (e :: reorgs s) (ks s) (calls s)) (gstep g (LReorg e)).
+Proof.
+  intros s g e (Ia & Ir & If & Ie & Ic). unfold Inv. simpl.
+  split; [assumption|]. split; [congruence|]. split; [|split].
+  - intros k ep. pose proof (If k ep). pose proof (egen_cons_le e (reorgs s) ep). lia.
+  - intros k ep en M. eapply entry_ok_mono; [apply egen_cons_le | apply Ie; assumption].
+  - intro c. apply (call_ok_transfer s g); [reflexivity | reflexivity | | | exact (Ic c)].
+    + intro ep. simpl. apply egen_cons_le.
+    + intros k ep. left. split; reflexivity.
+Qed.
+
+Lemma inv_update_active : forall s g idxs, Inv s g ->
+  Inv (mk idxs (reorgs s) (ks s) (calls s)) (gstep g (LUpdateActive idxs)).
+Proof.
+  intros s g idxs (Ia & Ir & If & Ie & Ic). unfold Inv. simpl.
+  split; [reflexivity|]. split; [assumption|]. split; [assumption|]. split; [assumption|].
+  intro c. apply (call_ok_transfer s g); [reflexivity | reflexivity | | | exact (Ic c)].
+  - intro ep. simpl. lia.
+  - intros k ep. left. split; reflexivity.
+Qed.
+
+Lemma inv_invalidate : forall s g k e, Inv s g ->
+  Inv (set_k s k (mkK (S (k_gen (ks s k))) (fun ep => if N.ltb e ep then None else k_map (ks s k) ep)))
+      (gstep g (LInvalidate k e)).
+Proof.
+  intros s g k e (Ia & Ir & If & Ie & Ic). unfold Inv. simpl.
+  split; [assumption|]. split; [assumption|]. split; [|split].
+  - intros k' ep. destruct (kind_eqb k k' && N.ltb e ep); [rewrite Ir; lia | apply If].
+  - intros k' ep en. destruct (kind_eqb_spec k k') as [<-|Hne]; simpl.
+    + destruct (N.ltb e ep); [discriminate|]. apply Ie.
+    + apply Ie.
+  - intro c. apply (call_ok_transfer s g); [reflexivity | reflexivity | | | exact (Ic c)].
+    + intro ep. simpl. lia.
+    + intros k' ep. simpl. destruct (kind_eqb_spec k k') as [<-|Hne]; simpl.
+      * right. lia.
+      * left. split; reflexivity.
+Qed.
+
+Lemma inv_trim : forall s g k e, Inv s g ->
+  Inv (set_k s k (mkK (k_gen (ks s k)) (fun ep => if N.ltb ep (e - trim_threshold) then None else k_map (ks s k) ep))) g.
+Proof.
+  intros s g k e (Ia & Ir & If & Ie & Ic). unfold Inv. simpl.
+  split; [assumption|]. split; [assumption|]. split; [assumption|]. split.
+  - intros k' ep en. destruct (kind_eqb_spec k k') as [<-|Hne]; simpl.
+    + destruct (N.ltb ep _); [discriminate|]. apply Ie.
+    + apply Ie.
+  - intro c. apply (call_ok_transfer s g); [reflexivity | reflexivity | | | exact (Ic c)].
+    + intro ep. simpl. lia.
+    + intros k' ep. simpl. left. destruct (kind_eqb_spec k k') as [<-|Hne]; simpl; split; reflexivity.
+Qed.
+
+
+Lemma ready_of_fetched : forall k ep idxs fl hi kg fln cached req lgen ans am,
+  phase_ok k ep idxs fl hi kg fln (PFetched cached req lgen ans am) ->
+  phase_ok k ep idxs fl hi kg fln (PReady (cached ++ ans) am).
+Proof.
+  intros k ep idxs fl hi kg fln cached req lgen ans am [(A & B & C & D & E & F) (gf & G1 & G2 & G3)].
+  subst ans am. simpl. split; [|split].
+  - intros d Hd. apply in_app_or in Hd. destruct Hd as [Hd|Hd].
+    + apply E. assumption.
+    + apply In_only in Hd. apply A. tauto.
+  - intros i Hi.
+    assert (of_val i (cached ++ Cache.bn asg k ep req gf)
+            = of_val i cached ++ (if mem i req then of_val i (asg k ep gf) else [])) as R.
+    { rewrite of_val_app. unfold Cache.bn. rewrite of_val_only. reflexivity. }
+    destruct (mem i req) eqn:M.
+    + apply mem_In in M. exists gf. split; [assumption|]. rewrite R.
+      rewrite (of_val_nil i cached); [reflexivity|].
+      intros d Hd X. destruct (E d Hd) as [_ Y]. apply Y. rewrite X. assumption.
+    + apply mem_false in M. destruct (F i Hi M) as [g0 [Q1 Q2]]. exists g0. split; [assumption|].
+      rewrite R, app_nil_r. assumption.
+  - exists gf. split; [assumption | reflexivity].
+Qed.
+
+Lemma store_entry_ok : forall k ep fl hi K req ans am gf K' ok,
+  NoDup req -> fl <= gf <= hi -> ans = bn k ep req gf -> am = metaf k ep gf ->
+  (forall en, k_map K ep = Some en -> entry_ok k ep fl hi en) ->
+  store_or_amend K ep req ans am = (K', ok) ->
+  k_gen K' = k_gen K /\ (forall ep', ep' <> ep -> k_map K' ep' = k_map K ep') /\
+  exists en', k_map K' ep = Some en' /\ entry_ok k ep fl hi en'.
+Proof.
+  intros k ep fl hi K req ans am gf K' ok ND G Ha Hm He H. unfold store_or_amend in H.
+  assert (forall i, In i req -> of_val i ans = of_val i (asg k ep gf)) as Hans.
+  { intros i Hi. subst ans. unfold Cache.bn. rewrite of_val_only.
+    assert (mem i req = true) as M by (apply mem_In; assumption). rewrite M. reflexivity. }
+  destruct (k_map K ep) as [en|] eqn:M; inversion H; subst K' ok; clear H; simpl.
+  - split; [reflexivity|]. split.
+    + intros ep' Hne. destruct (N.eqb_spec ep ep'); [congruence | reflexivity].
+    + rewrite N.eqb_refl. eexists. split; [reflexivity|].
+      destruct (He en eq_refl) as (E1 & E2 & E3). unfold entry_ok. simpl.
+      set (newly := minus req (e_req en)).
+      assert (NoDup newly) as NDn by (apply NoDup_minus; assumption).
+      split; [|split].
+      * intros d Hd. apply in_or_app. apply in_app_or in Hd. destruct Hd as [Hd|Hd]; [left; auto|right].
+        apply in_flat_map in Hd. destruct Hd as [j [J1 J2]]. apply In_of_val in J2. destruct J2 as [_ <-]. assumption.
+      * intros i Hi.
+        assert (of_val i (e_duties en ++ flat_map (fun j => of_val j ans) newly)
+                = of_val i (e_duties en) ++ (if mem i newly then of_val i ans else [])) as R.
+        { rewrite of_val_app, of_val_flat_map by assumption. reflexivity. }
+        apply in_app_or in Hi. destruct Hi as [Hi|Hi].
+        -- assert (mem i newly = false) as Mn.
+           { apply mem_false. intro X. apply In_minus in X. tauto. }
+           destruct (E2 i Hi) as [g0 [Q1 Q2]]. exists g0. split; [assumption|].
+           rewrite R, Mn, app_nil_r. assumption.
+        -- assert (mem i newly = true) as Mn by (apply mem_In; assumption).
+           apply In_minus in Hi. destruct Hi as [Hi1 Hi2].
+           exists gf. split; [assumption|]. rewrite R, Mn, (of_val_nil i (e_duties en)).
+           ++ simpl. apply Hans. assumption.
+           ++ intros d Hd X. apply Hi2. rewrite <- X. apply E1. assumption.
+      * assumption.
+  - split; [reflexivity|]. split.
+    + intros ep' Hne. destruct (N.eqb_spec ep ep'); [congruence | reflexivity].
+    + rewrite N.eqb_refl. eexists. split; [reflexivity|]. unfold entry_ok. simpl. split; [|split].
+      * intros d Hd. subst ans. apply In_only in Hd. tauto.
+      * intros i Hi. exists gf. split; [assumption | apply Hans; assumption].
+      * exists gf. split; assumption.
+Qed.
+
+Lemma inv_store : forall s g c stored s',
+  Inv s g -> step s (LStore c stored) = Some s' -> Inv s' g.
+Proof.
+  intros s g c stored s' HI H. simpl in H.
+  destruct (calls s c) as [[k ep [|cached req lgen ans am|]]|] eqn:Cs; try discriminate.
+  destruct (negb (Nat.eqb lgen (k_gen (ks s k)))) eqn:G; simpl in H.
+  - destruct (Bool.eqb stored false); [|discriminate]. inversion H; subst s'.
+    eapply inv_set_phase; [exact HI | exact Cs |]. intros idxs fl ND Hfl Hph. apply (ready_of_fetched _ _ _ _ _ _ _ _ _ _ _ _ Hph).
+  - apply negb_false_iff, Nat.eqb_eq in G.
+    destruct (store_or_amend (ks s k) ep req ans am) as [K' ok] eqn:SA.
+    destruct (Bool.eqb stored ok); [|discriminate]. inversion H; subst s'. clear H.
+    destruct HI as (Ia & Ir & If & Ie & Ic).
+    pose proof (Ic c) as X. unfold call_ok in X. rewrite Cs in X.
+    destruct (h_calls g c) as [gc|] eqn:Cg; [|contradiction]. simpl in X.
+    destruct X as (X1 & X2 & X3 & X4 & X5).
+    pose proof X5 as [(A & B & C & D & E & F) (gf & G1 & G2 & G3)].
+    specialize (D G).
+    destruct (store_entry_ok k ep (h_floor g k ep) (egen (reorgs s) ep) (ks s k) req ans am gf K' ok)
+      as (S1 & S2 & en' & S3 & S4); try assumption.
+    { rewrite D. assumption. }
+    { intros en M. apply Ie. assumption. }
+    unfold Inv. simpl. split; [assumption|]. split; [assumption|]. split; [assumption|]. split.
+    + intros k' ep' en. destruct (kind_eqb_spec k k') as [<-|Hne]; [|apply Ie].
+      destruct (N.eq_dec ep' ep) as [->|Hep].
+      * rewrite S3. intro Y. inversion Y; subst. assumption.
+      * rewrite S2 by assumption. apply Ie.
+    + intro c'. unfold call_ok. simpl. destruct (Nat.eqb_spec c c') as [<-|Hne].
+      * rewrite Cg. simpl.
+        repeat (split; [assumption|]). exact (ready_of_fetched _ _ _ _ _ _ _ _ _ _ _ _ X5).
+      * pose proof (Ic c') as Y. unfold call_ok in Y.
+        destruct (calls s c') as [[k' ep' ph']|]; destruct (h_calls g c') as [gc'|]; try assumption.
+        simpl in *. destruct (kind_eqb_spec k k') as [<-|Hk]; [rewrite S1|]; assumption.
+Qed.
+
+
+Lemma step_inv : forall s g l s',
+  Inv s g -> step s l = Some s' -> lookup_sets (h_active g) l ->
+  Inv s' (gstep g l) /\ check_ans g l = true.
+Proof.
+  intros s g l s' HI H HS. destruct l.
+  - split; [eapply inv_lookup; eauto | reflexivity].
+  - split; [eapply inv_fetch; eauto | reflexivity].
+  - split; [eapply inv_fetcherr; eauto | reflexivity].
+  - split; [eapply inv_store; eauto | reflexivity].
+  - eapply inv_return; eauto.
+  - simpl in H. inversion H; subst s'. split; [apply inv_reorg; assumption | reflexivity].
+  - simpl in H. inversion H; subst s'. split; [apply inv_invalidate; assumption | reflexivity].
+  - split; [|reflexivity]. simpl in H. destruct (N.ltb e trim_threshold); inversion H; subst s'.
+    + assumption.
+    + apply inv_trim. assumption.
+  - simpl in H. inversion H; subst s'. split; [apply inv_update_active; assumption | reflexivity].
+Qed.
+
+Lemma Inv_init : forall act, Inv (init_with act) (ginit_with act).
+Proof.
+  intro act. unfold Inv. simpl. split; [reflexivity|]. split; [reflexivity|]. split; [intros; lia|].
+  split; [intros; discriminate | intro c; exact I].
+Qed.
+
 End Facts.
+
+(* the ghost state after a prefix of the trace *)
+Definition ghost_after (g : ghost) (ls : list label) : ghost := fold_left gstep ls g.
+
+Lemma ghost_after_app : forall g a b, ghost_after g (a ++ b) = ghost_after (ghost_after g a) b.
+Proof. intros. apply fold_left_app. Qed.
+
+Lemma sets_only_cons : forall g l r,
+  sets_only_from (h_active g) (l :: r) = true ->
+  lookup_sets (h_active g) l /\ sets_only_from (h_active (gstep g l)) r = true.
+Proof.
+  intros g l r H. destruct l; simpl in *; try (split; [exact I | assumption]).
+  apply andb_true_iff in H. destruct H as [A B]. split; [apply nodupb_NoDup; assumption | assumption].
+Qed.
+
+Section Main.
+Variable asg : kind -> N -> nat -> list duty.
+Variable metaf : kind -> N -> nat -> N.
+
+Lemma run_inv : forall ls s g s',
+  Inv asg metaf s g -> run asg metaf s ls = Some s' -> sets_only_from (h_active g) ls = true ->
+  monitor_from asg metaf g ls = true /\ Inv asg metaf s' (ghost_after g ls).
+Proof.
+  induction ls as [|l r IH]; intros s g s' HI H HS; simpl in *.
+  - inversion H; subst. split; [reflexivity | assumption].
+  - unfold run in H. simpl in H. destruct (step_gen asg metaf true s l) as [s1|] eqn:St; [|discriminate].
+    destruct (sets_only_cons g l r HS) as [S1 S2].
+    destruct (step_inv asg metaf s g l s1 HI St S1) as [HI1 C].
+    destruct (IH s1 (gstep g l) s' HI1 H S2) as [M HI2].
+    rewrite C, M. split; [reflexivity | assumption].
+Qed.
+
+(* Every trace of the model in which all requests are index sets passes monitor A. *)
+Theorem run_monitor_ans : forall act ls s,
+  run asg metaf (init_with act) ls = Some s -> sets_only_from act ls = true ->
+  monitor_from asg metaf (ginit_with act) ls = true.
+Proof.
+  intros act ls s H HS. eapply run_inv; [apply Inv_init | exact H | exact HS].
+Qed.
+
+End Main.
+
+(* ------------------------------------------------------------------------------------------ *)
+(* Monitor B: the first lookup after an invalidation / trim finds nothing                         *)
+
+Lemma In_close : forall x c o, In x (close c o) <-> In x o /\ fst x <> c.
+Proof.
+  intros. unfold close. rewrite filter_In, negb_true_iff, Nat.eqb_neq. intuition congruence.
+Qed.
+
+Lemma open_on_In : forall c k ep o, In (c, (k, ep)) o -> open_on k ep o = true.
+Proof.
+  intros c k ep o H. unfold open_on. apply existsb_exists. exists (c, (k, ep)). split; [assumption|].
+  simpl. rewrite kind_eqb_refl, N.eqb_refl. reflexivity.
+Qed.
+
+Definition can_store (ph : phase) : option nat :=
+  match ph with PLooked _ _ lg | PFetched _ _ lg _ _ => Some lg | PReady _ _ => None end.
+
+Section Fresh.
+Variable asg : kind -> N -> nat -> list duty.
+Variable metaf : kind -> N -> nat -> N.
+
+Definition FInv (s : state) (f : fghost) : Prop :=
+  f_active f = active s /\
+  (forall c k ep ph lg, calls s c = Some (mkC k ep ph) -> can_store ph = Some lg ->
+                        lg <= k_gen (ks s k) /\ In (c, (k, ep)) (f_open f)) /\
+  (forall k ep, f_fresh f k ep = true ->
+                k_map (ks s k) ep = None /\
+                forall c ph lg, calls s c = Some (mkC k ep ph) -> can_store ph = Some lg -> lg < k_gen (ks s k)).
+
+Lemma fstep_inv : forall s f l s',
+  FInv s f -> step asg metaf s l = Some s' -> FInv s' (fstep f l) /\ check_fresh f l = true.
+Proof.
+  intros s f l s' (Fa & Fb & Fc) H. destruct l; simpl in H.
+  - (* LLookup *)
+    destruct (calls s c) eqn:Cs; [discriminate|].
+    assert (forall ph, (forall lg, can_store ph = Some lg -> lg = k_gen (ks s k) /\ exists r, obs = Some r) ->
+                       FInv (set_call s c (Some (mkC k ep ph))) (fstep f (LLookup c k ep idxs obs))) as Close.
+    { intros ph Hph. unfold FInv. simpl. split; [assumption|]. split.
+      - intros c' k' ep' ph' lg. destruct (Nat.eqb_spec c c') as [<-|Hne].
+        + intros E Hc. inversion E; subst k' ep' ph'. destruct (Hph lg Hc) as [-> [r ->]].
+          split; [lia | left; reflexivity].
+        + intros E Hc. destruct (Fb c' k' ep' ph' lg E Hc) as [A B]. split; [assumption|].
+          destruct obs; [right|]; assumption.
+      - intros k' ep'. destruct (kind_eqb k k' && N.eqb ep ep') eqn:E; [discriminate|]. intro Fr.
+        destruct (Fc k' ep' Fr) as [A B]. split; [assumption|].
+        intros c' ph' lg. destruct (Nat.eqb_spec c c') as [<-|Hne]; [|apply B].
+        intro X. inversion X; subst k' ep' ph'. rewrite kind_eqb_refl, N.eqb_refl in E. discriminate. }
+    assert (f_fresh f k ep = true -> k_map (ks s k) ep = None) as Fr by (intro X; apply (Fc k ep X)).
+    destruct (k_map (ks s k) ep) as [en|] eqn:M.
+    + assert (f_fresh f k ep = false) as Ff by (destruct (f_fresh f k ep); [specialize (Fr eq_refl); discriminate | reflexivity]).
+      destruct (is_nil _).
+      * destruct (obs_eqb obs None) eqn:O; [|discriminate]. inversion H; subst s'.
+        split; [apply Close; intros lg X; discriminate | simpl; rewrite Ff; reflexivity].
+      * destruct (obs_eqb obs _) eqn:O; [|discriminate]. inversion H; subst s'. apply obs_eqb_eq in O.
+        split; [apply Close; intros lg X; inversion X; split; [reflexivity | eexists; exact O] | simpl; rewrite Ff; reflexivity].
+    + destruct (obs_eqb obs _) eqn:O; [|discriminate]. inversion H; subst s'.
+      split; [apply Close; intros lg X; inversion X; apply obs_eqb_eq in O; split; [reflexivity | eexists; exact O]|].
+      simpl. rewrite Fa, O. destruct (f_fresh f k ep); reflexivity.
+  - (* LFetch *)
+    split; [|reflexivity].
+    destruct (calls s c) as [[k ep [cached req lgen| |]]|] eqn:Cs; try discriminate.
+    destruct (_ && _); [|discriminate]. inversion H; subst s'. unfold FInv. simpl.
+    split; [assumption|]. split.
+    + intros c' k' ep' ph' lg. destruct (Nat.eqb_spec c c') as [<-|Hne]; [|apply Fb].
+      intros E Hc. inversion E; subst k' ep' ph'. simpl in Hc. inversion Hc; subst lg.
+      apply (Fb c k ep _ lgen Cs eq_refl).
+    + intros k' ep' Fr. destruct (Fc k' ep' Fr) as [A B]. split; [assumption|].
+      intros c' ph' lg. destruct (Nat.eqb_spec c c') as [<-|Hne]; [|apply B].
+      intros E Hc. inversion E; subst k' ep' ph'. simpl in Hc. inversion Hc; subst lg.
+      apply (B c _ lgen Cs eq_refl).
+  - (* LFetchErr *)
+    split; [|reflexivity].
+    destruct (calls s c) as [[k ep [cached req lgen| |]]|] eqn:Cs; try discriminate.
+    inversion H; subst s'. unfold FInv. simpl. split; [assumption|]. split.
+    + intros c' k' ep' ph' lg. destruct (Nat.eqb_spec c c') as [<-|Hne]; [discriminate|].
+      intros E Hc. destruct (Fb c' k' ep' ph' lg E Hc) as [A B]. split; [assumption|].
+      apply In_close. split; [assumption | simpl; congruence].
+    + intros k' ep' Fr. destruct (Fc k' ep' Fr) as [A B]. split; [assumption|].
+      intros c' ph' lg. destruct (Nat.eqb_spec c c') as [<-|Hne]; [discriminate | apply B].
+  - (* LStore *)
+    split; [|reflexivity].
+    destruct (calls s c) as [[k ep [|cached req lgen ans am|]]|] eqn:Cs; try discriminate.
+    assert (forall ks', (forall k', k_gen (ks' k') = k_gen (ks s k')) ->
+              (forall k' ep', f_fresh f k' ep' = true -> k_map (ks' k') ep' = None) ->
+              FInv (mk (active s) (reorgs s) ks'
+                       (fun c' => if Nat.eqb c c' then Some (mkC k ep (PReady (cached ++ ans) am)) else calls s c'))
+                   (fstep f (LStore c stored))) as Close.
+    { intros ks' HK HM. unfold FInv. simpl. split; [assumption|]. split.
+      - intros c' k' ep' ph' lg. destruct (Nat.eqb_spec c c') as [<-|Hne].
+        + intros E Hc. inversion E; subst ph'. discriminate.
+        + intros E Hc. destruct (Fb c' k' ep' ph' lg E Hc) as [A B]. split.
+          * rewrite HK. assumption.
+          * apply In_close. split; [assumption | simpl; congruence].
+      - intros k' ep' Fr. split; [apply HM; assumption|]. destruct (Fc k' ep' Fr) as [A B].
+        intros c' ph' lg. destruct (Nat.eqb_spec c c') as [<-|Hne].
+        + intros E Hc. inversion E; subst ph'. discriminate.
+        + intros E Hc. specialize (B c' ph' lg E Hc). rewrite HK. assumption. }
+    destruct (negb (Nat.eqb lgen (k_gen (ks s k)))) eqn:G; simpl in H.
+    + destruct (Bool.eqb stored false); [|discriminate]. inversion H; subst s'.
+      apply (Close (ks s)); [reflexivity|]. intros k' ep' Fr. apply (Fc _ _ Fr).
+    + apply negb_false_iff, Nat.eqb_eq in G.
+      destruct (store_or_amend (ks s k) ep req ans am) as [K' ok] eqn:SA.
+      destruct (Bool.eqb stored ok); [|discriminate]. inversion H; subst s'.
+      assert (k_gen K' = k_gen (ks s k) /\ forall ep', ep' <> ep -> k_map K' ep' = k_map (ks s k) ep') as [S1 S2].
+      { unfold store_or_amend in SA. destruct (k_map (ks s k) ep); inversion SA; subst K'; simpl;
+          (split; [reflexivity|]); intros ep' Hne; destruct (N.eqb_spec ep ep'); congruence. }
+      apply (Close (fun k' => if kind_eqb k k' then K' else ks s k')).
+      * intro k'. destruct (kind_eqb_spec k k') as [<-|]; [assumption | reflexivity].
+      * intros k' ep' Fr. destruct (Fc k' ep' Fr) as [A B].
+        destruct (kind_eqb_spec k k') as [<-|]; [|assumption].
+        destruct (N.eq_dec ep' ep) as [->|Hne]; [|rewrite S2; assumption].
+        specialize (B c _ lgen Cs eq_refl). lia.
+  - (* LReturn *)
+    split; [|reflexivity].
+    destruct (calls s c) as [[k ep [| |r rm]]|] eqn:Cs; try discriminate.
+    destruct (_ && _); [|discriminate]. inversion H; subst s'. unfold FInv. simpl.
+    split; [assumption|]. split.
+    + intros c' k' ep' ph' lg. destruct (Nat.eqb_spec c c') as [<-|Hne]; [discriminate | apply Fb].
+    + intros k' ep' Fr. destruct (Fc k' ep' Fr) as [A B]. split; [assumption|].
+      intros c' ph' lg. destruct (Nat.eqb_spec c c') as [<-|Hne]; [discriminate | apply B].
+  - (* LReorg *)
+    inversion H; subst s'. split; [|reflexivity]. unfold FInv. simpl. auto.
+  - (* LInvalidate *)
+    inversion H; subst s'. split; [|reflexivity]. unfold FInv. simpl. split; [assumption|]. split.
+    + intros c' k' ep' ph' lg E Hc. destruct (Fb c' k' ep' ph' lg E Hc) as [A B]. split; [|assumption].
+      destruct (kind_eqb_spec k k') as [<-|]; simpl; lia.
+    + intros k' ep'. destruct (kind_eqb_spec k k') as [<-|Hne]; simpl.
+      * destruct (N.ltb e ep') eqn:L.
+        -- intros _. split; [reflexivity|]. intros c' ph' lg E Hc.
+           destruct (Fb c' k ep' ph' lg E Hc) as [A B]. lia.
+        -- intro Fr. destruct (Fc k ep' Fr) as [A B]. split; [assumption|].
+           intros c' ph' lg E Hc. specialize (B c' ph' lg E Hc). lia.
+      * apply Fc.
+  - (* LTrim *)
+    split; [|reflexivity]. destruct (N.ltb e trim_threshold) eqn:T; inversion H; subst s'.
+    + simpl. rewrite T. unfold FInv. auto.
+    + simpl. rewrite T. unfold FInv. simpl. split; [assumption|]. split.
+      * intros c' k' ep' ph' lg E Hc. destruct (Fb c' k' ep' ph' lg E Hc) as [A B]. split; [|assumption].
+        destruct (kind_eqb_spec k k') as [<-|]; simpl; lia.
+      * intros k' ep'. destruct (kind_eqb_spec k k') as [<-|Hne]; simpl; [|apply Fc].
+        destruct (N.ltb ep' (e - trim_threshold)) eqn:L; simpl.
+        -- destruct (open_on k ep' (f_open f)) eqn:O; simpl.
+           ++ intro Fr. destruct (Fc k ep' Fr) as [A B]. split; [reflexivity | assumption].
+           ++ intros _. split; [reflexivity|]. intros c' ph' lg E Hc.
+              destruct (Fb c' k ep' ph' lg E Hc) as [A B]. apply open_on_In in B. congruence.
+        -- intro Fr. apply (Fc k ep' Fr).
+  - (* LUpdateActive *)
+    inversion H; subst s'. split; [|reflexivity]. unfold FInv. simpl. auto.
+Qed.
+
+Lemma FInv_init : forall act, FInv (init_with act) (finit_with act).
+Proof.
+  intro act. unfold FInv. simpl. split; [reflexivity|]. split; intros; discriminate.
+Qed.
+
+Lemma run_finv : forall ls s f s',
+  FInv s f -> run asg metaf s ls = Some s' -> fmonitor_from f ls = true.
+Proof.
+  induction ls as [|l r IH]; intros s f s' HI H; simpl in *; [reflexivity|].
+  unfold run in H. simpl in H. destruct (step_gen asg metaf true s l) as [s1|] eqn:St; [|discriminate].
+  destruct (fstep_inv s f l s1 HI St) as [HI1 C]. rewrite C. simpl. eapply IH; eauto.
+Qed.
+
+(* Every trace of the model passes monitor B (no hypothesis on the requests). *)
+Theorem run_monitor_fresh : forall act ls s,
+  run asg metaf (init_with act) ls = Some s -> fmonitor_from (finit_with act) ls = true.
+Proof. intros act ls s H. eapply run_finv; [apply FInv_init | exact H]. Qed.
+
+End Fresh.
+
+(* ------------------------------------------------------------------------------------------ *)
+(* Reading the monitors: trace-level vocabulary                                                    *)
+
+(* active set / reorg list after a prefix of the trace *)
+Fixpoint active_after (act : list N) (ls : list label) : list N :=
+  match ls with
+  | [] => act
+  | LUpdateActive a :: r => active_after a r
+  | _ :: r => active_after act r
+  end.
+
+Fixpoint reorgs_after (rs : list N) (ls : list label) : list N :=
+  match ls with
+  | [] => rs
+  | LReorg e :: r => reorgs_after (e :: rs) r
+  | _ :: r => reorgs_after rs r
+  end.
+
+(* epoch generation of ep at the most recent invalidation of kind k that covered ep *)
+Definition floor_after (act : list N) (ls : list label) (k : kind) (ep : N) : nat :=
+  h_floor (ghost_after (ginit_with act) ls) k ep.
+
+(* label l ends or (re)starts call c *)
+Definition closes (c : nat) (l : label) : bool :=
+  match l with
+  | LLookup c' _ _ _ _ | LFetchErr c' | LReturn c' _ _ => Nat.eqb c c'
+  | _ => false
+  end.
+Definition no_close (c : nat) (mid : list label) : bool := forallb (fun l => negb (closes c l)) mid.
+
+(* label l is a lookup of (k, ep) *)
+Definition looks (k : kind) (ep : N) (l : label) : bool :=
+  match l with LLookup _ k' ep' _ _ => kind_eqb k k' && N.eqb ep ep' | _ => false end.
+Definition no_lookup (k : kind) (ep : N) (mid : list label) : bool := forallb (fun l => negb (looks k ep l)) mid.
+
+Definition fghost_after (f : fghost) (ls : list label) : fghost := fold_left fstep ls f.
+
+(* calls on which a store may still happen after the prefix ls (looked up with a miss or partial
+   hit, storeOrAmend not reached yet) *)
+Definition in_flight_after (act : list N) (ls : list label) : list (nat * (kind * N)) :=
+  f_open (fghost_after (finit_with act) ls).
+
+Lemma h_active_after : forall ls g, h_active (ghost_after g ls) = active_after (h_active g) ls.
+Proof. induction ls as [|l r IH]; intro g; [reflexivity|]. simpl. rewrite IH. destruct l; reflexivity. Qed.
+
+Lemma h_reorgs_after : forall ls g, h_reorgs (ghost_after g ls) = reorgs_after (h_reorgs g) ls.
+Proof. induction ls as [|l r IH]; intro g; [reflexivity|]. simpl. rewrite IH. destruct l; reflexivity. Qed.
+
+Lemma f_active_after : forall ls f, f_active (fghost_after f ls) = active_after (f_active f) ls.
+Proof.
+  induction ls as [|l r IH]; intro f; [reflexivity|]. simpl. rewrite IH.
+  destruct l; try reflexivity. simpl. destruct (N.ltb e trim_threshold); reflexivity.
+Qed.
+
+Lemma fghost_after_app : forall f a b, fghost_after f (a ++ b) = fghost_after (fghost_after f a) b.
+Proof. intros. apply fold_left_app. Qed.
+
+Lemma reorgs_after_app : forall a b rs, reorgs_after rs (a ++ b) = reorgs_after (reorgs_after rs a) b.
+Proof. induction a as [|l r IH]; intros b rs; [reflexivity|]. destruct l; simpl; apply IH. Qed.
+
+Lemma active_after_app : forall a b act, active_after act (a ++ b) = active_after (active_after act a) b.
+Proof. induction a as [|l r IH]; intros b act; [reflexivity|]. destruct l; simpl; apply IH. Qed.
+
+Lemma egen_reorgs_after_le : forall ls rs ep, egen rs ep <= egen (reorgs_after rs ls) ep.
+Proof.
+  induction ls as [|l r IH]; intros rs ep; simpl; [lia|].
+  destruct l; try apply IH. pose proof (egen_cons_le e rs ep). pose proof (IH (e :: rs) ep). lia.
+Qed.
+
+Lemma ghost_call_kept : forall mid g c, no_close c mid = true -> h_calls (ghost_after g mid) c = h_calls g c.
+Proof.
+  induction mid as [|l r IH]; intros g c H; [reflexivity|]. simpl in *.
+  apply andb_true_iff in H. destruct H as [H1 H2]. rewrite (IH _ _ H2).
+  destruct l; simpl in *; try reflexivity; apply negb_true_iff in H1;
+    rewrite Nat.eqb_sym in H1; rewrite H1; reflexivity.
+Qed.
+
+Definition floor_le_egen (g : ghost) : Prop := forall k ep, h_floor g k ep <= egen (h_reorgs g) ep.
+
+Lemma floor_le_egen_step : forall g l, floor_le_egen g -> floor_le_egen (gstep g l).
+Proof.
+  intros g l H k ep. destruct l; simpl; try apply H.
+  - pose proof (H k ep). pose proof (egen_cons_le e (h_reorgs g) ep). lia.
+  - destruct (kind_eqb k0 k && N.ltb e ep); [lia | apply H].
+Qed.
+
+Lemma floor_le_egen_after : forall ls g, floor_le_egen g -> floor_le_egen (ghost_after g ls).
+Proof. induction ls as [|l r IH]; intros g H; [assumption|]. simpl. apply IH, floor_le_egen_step, H. Qed.
+
+Lemma floor_mono_after : forall ls g k ep, floor_le_egen g -> h_floor g k ep <= h_floor (ghost_after g ls) k ep.
+Proof.
+  induction ls as [|l r IH]; intros g k ep H; simpl; [lia|].
+  pose proof (IH (gstep g l) k ep (floor_le_egen_step g l H)) as X.
+  enough (h_floor g k ep <= h_floor (gstep g l) k ep) by lia.
+  destruct l; simpl; try lia. destruct (kind_eqb k0 k && N.ltb e ep); [apply H | lia].
+Qed.
+
+Lemma floor_le_egen_init : forall act, floor_le_egen (ginit_with act).
+Proof. intros act k ep. simpl. lia. Qed.
+
+Lemma fresh_kept : forall mid f k ep,
+  no_lookup k ep mid = true -> f_fresh f k ep = true -> f_fresh (fghost_after f mid) k ep = true.
+Proof.
+  induction mid as [|l r IH]; intros f k ep H Fr; [assumption|]. simpl in *.
+  apply andb_true_iff in H. destruct H as [H1 H2]. apply IH; [assumption|].
+  destruct l; simpl in *; try assumption.
+  - apply negb_true_iff in H1. rewrite andb_comm in H1.
+    destruct (kind_eqb k0 k && N.eqb ep0 ep) eqn:E; [|assumption].
+    apply andb_true_iff in E. destruct E as [E1 E2]. apply kind_eqb_eq in E1. apply N.eqb_eq in E2. subst.
+    rewrite kind_eqb_refl, N.eqb_refl in H1. discriminate.
+  - destruct (kind_eqb k0 k && N.ltb e ep); [reflexivity | assumption].
+  - destruct (N.ltb e trim_threshold); [assumption|]. simpl.
+    destruct (kind_eqb k0 k && N.ltb ep (e - trim_threshold) && negb (open_on k0 ep (f_open f))); [reflexivity | assumption].
+Qed.
+
+(* two lists with the same duties per validator are permutations of each other *)
+Lemma duty_eq_dec : forall a b : duty, {a = b} + {a <> b}.
+Proof. decide equality; apply N.eq_dec. Qed.
+
+Lemma count_occ_of_val : forall d l, count_occ duty_eq_dec (of_val (vidx d) l) d = count_occ duty_eq_dec l d.
+Proof.
+  intros d l. induction l as [|x r IH]; simpl; [reflexivity|].
+  destruct (N.eqb_spec (vidx x) (vidx d)) as [E|E]; simpl.
+  - destruct (duty_eq_dec x d); rewrite IH; reflexivity.
+  - destruct (duty_eq_dec x d) as [->|]; [congruence | assumption].
+Qed.
+
+Lemma perm_by_validator : forall l1 l2, (forall i, of_val i l1 = of_val i l2) -> Permutation l1 l2.
+Proof.
+  intros l1 l2 H. apply (Permutation_count_occ duty_eq_dec). intro d.
+  rewrite <- (count_occ_of_val d l1), <- (count_occ_of_val d l2), H. reflexivity.
+Qed.
+
+Lemma perm_bn : forall asg k ep S g res,
+  (forall d, In d res -> In (vidx d) S) ->
+  (forall i, In i S -> of_val i res = of_val i (asg k ep g)) ->
+  Permutation res (bn asg k ep S g).
+Proof.
+  intros asg k ep S g res A B. apply perm_by_validator. intro i. unfold bn. rewrite of_val_only.
+  destruct (mem i S) eqn:M.
+  - apply B. apply mem_In. assumption.
+  - apply of_val_nil. intros d Hd X. apply mem_false in M. apply M. rewrite <- X. apply A. assumption.
+Qed.
+
+Lemma monitor_split : forall asg metaf pre g l post,
+  monitor_from asg metaf g (pre ++ l :: post) = true -> check_ans asg metaf (ghost_after g pre) l = true.
+Proof.
+  induction pre as [|x r IH]; intros g l post H; simpl in *.
+  - apply andb_true_iff in H. tauto.
+  - apply andb_true_iff in H. destruct H as [_ H]. apply (IH _ _ _ H).
+Qed.
+
+Lemma fmonitor_split : forall pre f l post,
+  fmonitor_from f (pre ++ l :: post) = true -> check_fresh (fghost_after f pre) l = true.
+Proof.
+  induction pre as [|x r IH]; intros f l post H; simpl in *.
+  - apply andb_true_iff in H. tauto.
+  - apply andb_true_iff in H. destruct H as [_ H]. apply (IH _ _ _ H).
+Qed.
+
+Section Readings.
+Variable asg : kind -> N -> nat -> list duty.
+Variable metaf : kind -> N -> nat -> N.
+
+(* What ANY call returns, whatever overlaps it: duties of requested validators only; for each requested
+   validator exactly the beacon node's duties of that validator at one epoch generation g, where g is
+   not older than the last invalidation (covering the epoch) that completed before the call's lookup
+   and not newer than the chain at the return; metadata likewise. *)
+Theorem answer_window : forall act ls s,
+  run asg metaf (init_with act) ls = Some s -> sets_only_from act ls = true ->
+  forall pre c k ep idxs obs mid res m post,
+  ls = pre ++ LLookup c k ep idxs obs :: mid ++ LReturn c res m :: post -> no_close c mid = true ->
+  let S := resolve (active_after act pre) idxs in
+  let lo := floor_after act pre k ep in
+  let hi := egen (reorgs_after [] (pre ++ LLookup c k ep idxs obs :: mid)) ep in
+  (forall d, In d res -> In (vidx d) S) /\
+  (forall i, In i S -> exists g, lo <= g <= hi /\ of_val i res = of_val i (asg k ep g)) /\
+  (exists g, lo <= g <= hi /\ m = metaf k ep g).
+Proof.
+  intros act ls s H HS pre c k ep idxs obs mid res m post E NC S lo hi.
+  pose proof (run_monitor_ans asg metaf act ls s H HS) as M.
+  replace ls with ((pre ++ LLookup c k ep idxs obs :: mid) ++ LReturn c res m :: post) in M
+    by (rewrite E, <- app_assoc; reflexivity).
+  apply monitor_split in M. simpl in M.
+  rewrite ghost_after_app in M. simpl in M. rewrite (ghost_call_kept mid _ c NC) in M. simpl in M.
+  rewrite Nat.eqb_refl in M. simpl in M.
+  rewrite h_reorgs_after in M. simpl in M. rewrite h_reorgs_after, h_active_after in M. simpl in M.
+  apply answer_ok_inv in M. unfold S, lo, hi, floor_after. rewrite reorgs_after_app. simpl. exact M.
+Qed.
+
+(* The answer equals the beacon node's answer (as a multiset; metadata equal) whenever no reorg of
+   the epoch is pending (reorg seen by the beacon node, invalidation not yet run) at the lookup and
+   none happens during the call -- whatever else overlaps the call. *)
+Theorem answers_equal_bn : forall act ls s,
+  run asg metaf (init_with act) ls = Some s -> sets_only_from act ls = true ->
+  forall pre c k ep idxs obs mid res m post,
+  ls = pre ++ LLookup c k ep idxs obs :: mid ++ LReturn c res m :: post -> no_close c mid = true ->
+  floor_after act pre k ep = egen (reorgs_after [] (pre ++ LLookup c k ep idxs obs :: mid)) ep ->
+  let g := egen (reorgs_after [] pre) ep in
+  Permutation res (bn asg k ep (resolve (active_after act pre) idxs) g) /\ m = metaf k ep g.
+Proof.
+  intros act ls s H HS pre c k ep idxs obs mid res m post E NC Hsync g.
+  destruct (answer_window act ls s H HS pre c k ep idxs obs mid res m post E NC) as (A & B & C).
+  assert (floor_after act pre k ep <= g) as L1.
+  { unfold floor_after, g. pose proof (floor_le_egen_after pre _ (floor_le_egen_init act) k ep) as X.
+    rewrite h_reorgs_after in X. exact X. }
+  assert (g <= egen (reorgs_after [] (pre ++ LLookup c k ep idxs obs :: mid)) ep) as L2.
+  { unfold g. rewrite reorgs_after_app. apply egen_reorgs_after_le. }
+  split.
+  - apply perm_bn; [assumption|]. intros i Hi. destruct (B i Hi) as [g0 [G1 G2]].
+    replace g with g0 by lia. assumption.
+  - destruct C as [g0 [G1 G2]]. replace g with g0 by lia. assumption.
+Qed.
+
+(* What the generation counter buys: a call whose lookup comes after an invalidation of epochs > e0
+   completed never returns, for an epoch > e0, duties (or metadata) of an epoch generation older than the one
+   current when the invalidation ran -- under every interleaving of other calls, stores, reorgs. *)
+Theorem concurrent_no_stale : forall act ls s,
+  run asg metaf (init_with act) ls = Some s -> sets_only_from act ls = true ->
+  forall pre0 k e0 pre1 c ep idxs obs mid res m post,
+  ls = pre0 ++ LInvalidate k e0 :: pre1 ++ LLookup c k ep idxs obs :: mid ++ LReturn c res m :: post ->
+  N.lt e0 ep -> no_close c mid = true ->
+  let G := egen (reorgs_after [] pre0) ep in
+  (forall i, In i (resolve (active_after act (pre0 ++ LInvalidate k e0 :: pre1)) idxs) ->
+             exists g, G <= g /\ of_val i res = of_val i (asg k ep g)) /\
+  (exists g, G <= g /\ m = metaf k ep g).
+Proof.
+  intros act ls s H HS pre0 k e0 pre1 c ep idxs obs mid res m post E Lt NC G.
+  destruct (answer_window act ls s H HS (pre0 ++ LInvalidate k e0 :: pre1) c k ep idxs obs mid res m post)
+    as (A & B & C); [rewrite E, <- app_assoc; reflexivity | assumption |].
+  assert (G <= floor_after act (pre0 ++ LInvalidate k e0 :: pre1) k ep) as L.
+  { unfold floor_after. rewrite ghost_after_app. simpl.
+    set (g0 := ghost_after (ginit_with act) pre0).
+    assert (floor_le_egen g0) as F0 by (apply floor_le_egen_after, floor_le_egen_init).
+    pose proof (floor_mono_after pre1 (gstep g0 (LInvalidate k e0)) k ep (floor_le_egen_step _ _ F0)) as X.
+    simpl in X. rewrite kind_eqb_refl in X. apply N.ltb_lt in Lt. rewrite Lt in X. simpl in X.
+    unfold g0 in X at 1. rewrite h_reorgs_after in X. exact X. }
+  split.
+  - intros i Hi. destruct (B i Hi) as [g [G1 G2]]. exists g. split; [lia | assumption].
+  - destruct C as [g [G1 G2]]. exists g. split; [lia | assumption].
+Qed.
+
+(* After InvalidateCache(e0) reached kind k, the first call that looks up an epoch > e0 of that kind
+   finds nothing cached: it asks the beacon node for all its indices -- even if calls that started
+   before the invalidation complete their beacon request and reach storeOrAmend in between. *)
+Theorem invalidate_refetches : forall act ls s,
+  run asg metaf (init_with act) ls = Some s ->
+  forall pre k e0 mid c ep idxs obs post,
+  ls = pre ++ LInvalidate k e0 :: mid ++ LLookup c k ep idxs obs :: post ->
+  N.lt e0 ep -> no_lookup k ep mid = true ->
+  obs = Some (resolve (active_after act (pre ++ LInvalidate k e0 :: mid)) idxs).
+Proof.
+  intros act ls s H pre k e0 mid c ep idxs obs post E Lt NL.
+  pose proof (run_monitor_fresh asg metaf act ls s H) as M.
+  replace ls with ((pre ++ LInvalidate k e0 :: mid) ++ LLookup c k ep idxs obs :: post) in M
+    by (rewrite E, <- app_assoc; reflexivity).
+  apply fmonitor_split in M. simpl in M.
+  rewrite f_active_after in M. simpl in M.
+  rewrite fghost_after_app in M. simpl in M.
+  rewrite (fresh_kept mid _ k ep NL) in M.
+  - apply obs_eqb_eq in M. exact M.
+  - simpl. rewrite kind_eqb_refl. apply N.ltb_lt in Lt. rewrite Lt. reflexivity.
+Qed.
+
+(* After Trim(e) (e >= 3) reached kind k, the first call that looks up an epoch < e - 3 of that kind
+   finds nothing cached, provided no call on that epoch was between its lookup and its store when the
+   trim ran (such a call stores the epoch again: trims do not bump the generation; its duties are still
+   the beacon node's, see answer_window). *)
+Theorem trim_refetches : forall act ls s,
+  run asg metaf (init_with act) ls = Some s ->
+  forall pre k e mid c ep idxs obs post,
+  ls = pre ++ LTrim k e :: mid ++ LLookup c k ep idxs obs :: post ->
+  N.le trim_threshold e -> N.lt ep (e - trim_threshold) ->
+  open_on k ep (in_flight_after act pre) = false -> no_lookup k ep mid = true ->
+  obs = Some (resolve (active_after act (pre ++ LTrim k e :: mid)) idxs).
+Proof.
+  intros act ls s H pre k e mid c ep idxs obs post E Le Lt NO NL.
+  pose proof (run_monitor_fresh asg metaf act ls s H) as M.
+  replace ls with ((pre ++ LTrim k e :: mid) ++ LLookup c k ep idxs obs :: post) in M
+    by (rewrite E, <- app_assoc; reflexivity).
+  apply fmonitor_split in M. simpl in M.
+  rewrite f_active_after in M. simpl in M.
+  rewrite fghost_after_app in M. simpl in M.
+  rewrite (fresh_kept mid _ k ep NL) in M.
+  - apply obs_eqb_eq in M. exact M.
+  - assert (N.ltb e trim_threshold = false) as T by (apply N.ltb_ge; assumption).
+    simpl. rewrite T. simpl. rewrite kind_eqb_refl. apply N.ltb_lt in Lt. rewrite Lt.
+    unfold in_flight_after in NO. rewrite NO. reflexivity.
+Qed.
+
+(* Reachable cache contents: an entry holds duties of requested validators only; for each requested
+   validator exactly the beacon node's duties at one epoch generation between the last invalidation
+   covering the epoch and now; with no reorg pending the entry is the beacon node's answer for the
+   requested indices at the current epoch generation. *)
+Theorem requested_subset_invariant : forall act ls s,
+  run asg metaf (init_with act) ls = Some s -> sets_only_from act ls = true ->
+  forall k ep en, k_map (ks s k) ep = Some en ->
+  let lo := floor_after act ls k ep in
+  let hi := egen (reorgs_after [] ls) ep in
+  (forall d, In d (e_duties en) -> In (vidx d) (e_req en)) /\
+  (forall i, In i (e_req en) -> exists g, lo <= g <= hi /\ of_val i (e_duties en) = of_val i (asg k ep g)) /\
+  (exists g, lo <= g <= hi /\ e_meta en = metaf k ep g) /\
+  (lo = hi -> Permutation (e_duties en) (bn asg k ep (e_req en) hi) /\ e_meta en = metaf k ep hi).
+Proof.
+  intros act ls s H HS k ep en M lo hi.
+  destruct (run_inv asg metaf ls _ _ _ (Inv_init asg metaf act) H HS) as [_ (Ia & Ir & If & Ie & Ic)].
+  destruct (Ie k ep en M) as (A & B & C).
+  assert (egen (reorgs s) ep = hi) as Eh by (unfold hi; rewrite Ir, h_reorgs_after; reflexivity).
+  rewrite Eh in B, C. fold (floor_after act ls k ep) in B, C. fold lo in B, C.
+  split; [assumption|]. split; [assumption|]. split; [assumption|].
+  intro Eq. split.
+  - apply perm_bn; [assumption|]. intros i Hi. destruct (B i Hi) as [g [G1 G2]].
+    replace hi with g by lia. assumption.
+  - destruct C as [g [G1 G2]]. replace hi with g by lia. assumption.
+Qed.
+
+End Readings.
+
+(* ------------------------------------------------------------------------------------------ *)
+(* Histories without overlap, in the words of the property                                        *)
+
+(* A history is sequential when (a) between the lookup of a call and its return only steps of that
+   call occur, and (b) every reorg is directly followed by InvalidateCache for it (its three parts, in
+   the order of the Go code).  Invalidations without a reorg, trims and active-set updates may occur
+   anywhere between calls. *)
+Inductive seqst := QIdle | QCall (c : nat) | QInv (e : N) (n : nat).
+
+Definition seq_step (q : seqst) (l : label) : option seqst :=
+  match q, l with
+  | QIdle, LLookup c _ _ _ _ => Some (QCall c)
+  | QIdle, LReorg e => Some (QInv e 0)
+  | QIdle, LInvalidate _ _ => Some QIdle
+  | QIdle, LTrim _ _ => Some QIdle
+  | QIdle, LUpdateActive _ => Some QIdle
+  | QCall c, LFetch c' _ _ => if Nat.eqb c c' then Some (QCall c) else None
+  | QCall c, LStore c' _ => if Nat.eqb c c' then Some (QCall c) else None
+  | QCall c, LReturn c' _ _ => if Nat.eqb c c' then Some QIdle else None
+  | QCall c, LFetchErr c' => if Nat.eqb c c' then Some QIdle else None
+  | QInv e 0, LInvalidate KProp e' => if N.eqb e e' then Some (QInv e 1) else None
+  | QInv e 1, LInvalidate KAtt e' => if N.eqb e e' then Some (QInv e 2) else None
+  | QInv e 2, LInvalidate KSync e' => if N.eqb e e' then Some QIdle else None
+  | _, _ => None
+  end.
+
+Fixpoint seq_from (q : seqst) (ls : list label) : bool :=
+  match ls with
+  | [] => true
+  | l :: r => match seq_step q l with Some q' => seq_from q' r | None => false end
+  end.
+Definition sequential : list label -> bool := seq_from QIdle.
+
+Definition kdone (k : kind) (n : nat) : bool :=
+  match k with KProp => Nat.leb 1 n | KAtt => Nat.leb 2 n | KSync => Nat.leb 3 n end.
+
+Definition seq_ok (q : seqst) (g : ghost) : Prop :=
+  match q with
+  | QInv e n => n <= 2 /\ forall k ep, kdone k n = true \/ N.ltb e ep = false -> h_floor g k ep = egen (h_reorgs g) ep
+  | _ => forall k ep, h_floor g k ep = egen (h_reorgs g) ep
+  end.
+
+Lemma seq_ok_step : forall q g l q', seq_step q l = Some q' -> seq_ok q g -> seq_ok q' (gstep g l).
+Proof.
+  intros q g l q' H Hq. destruct q as [|c|e n].
+  - destruct l; simpl in H; inversion H; subst q'; simpl in *; try assumption.
+    + split; [lia|]. intros k ep [X|X]; [destruct k; discriminate|].
+      unfold egen. simpl. rewrite X. apply Hq.
+    + intros k' ep. destruct (kind_eqb k k' && N.ltb e ep); [reflexivity | apply Hq].
+  - destruct l; simpl in H; try discriminate; destruct (Nat.eqb c c0); inversion H; subst q'; simpl in *; assumption.
+  - destruct Hq as [Hn Hq].
+    destruct n as [|[|[|n]]]; [| | |lia]; destruct l; simpl in H; try discriminate;
+      destruct k; try discriminate; destruct (N.eqb_spec e e0) as [<-|]; inversion H; subst q'; simpl.
+    + split; [lia|]. intros k ep X.
+      destruct k; simpl in *; try (destruct (N.ltb e ep) eqn:L; [reflexivity|]); apply Hq;
+        first [ left; reflexivity | right; assumption | destruct X as [X|X]; [discriminate | right; assumption] ].
+    + split; [lia|]. intros k ep X.
+      destruct k; simpl in *; try (destruct (N.ltb e ep) eqn:L; [reflexivity|]); apply Hq;
+        first [ left; reflexivity | right; assumption | destruct X as [X|X]; [discriminate | right; assumption] ].
+    + intros k ep.
+      destruct k; simpl in *; try (destruct (N.ltb e ep) eqn:L; [reflexivity|]); apply Hq;
+        first [ left; reflexivity | right; assumption ].
+Qed.
+
+Lemma seq_split : forall a q g b, seq_from q (a ++ b) = true -> seq_ok q g ->
+  exists q', seq_ok q' (ghost_after g a) /\ seq_from q' b = true.
+Proof.
+  induction a as [|l r IH]; intros q g b H Hq; simpl in *; [exists q; tauto|].
+  destruct (seq_step q l) as [q1|] eqn:S; [|discriminate].
+  apply (IH q1 (gstep g l) b H). eapply seq_ok_step; eauto.
+Qed.
+
+Lemma seq_call_reorgs : forall mid c rest rs,
+  seq_from (QCall c) (mid ++ rest) = true -> no_close c mid = true -> reorgs_after rs mid = rs.
+Proof.
+  induction mid as [|l r IH]; intros c rest rs H NC; [reflexivity|]. simpl in *.
+  apply andb_true_iff in NC. destruct NC as [N1 N2].
+  destruct l; simpl in H; try discriminate; destruct (Nat.eqb c c0) eqn:E; try discriminate; simpl in *.
+  - apply (IH c rest rs H N2).
+  - rewrite E in N1. discriminate.
+  - apply (IH c rest rs H N2).
+  - rewrite E in N1. discriminate.
+Qed.
+
+Section Sequential.
+Variable asg : kind -> N -> nat -> list duty.
+Variable metaf : kind -> N -> nat -> N.
+
+(* In every history without overlap, over explicit index sets, each answer is -- as a multiset --
+   the beacon node's answer for the request at the epoch generation current at the call, and the
+   metadata is the beacon node's: also for validators with no or several duties, on the full-hit,
+   partial-hit (amend) and miss paths, for repeated, overlapping and disjoint index sets. *)
+Theorem sequential_equals_bn : forall act ls s,
+  run asg metaf (init_with act) ls = Some s -> sets_only_from act ls = true -> sequential ls = true ->
+  forall pre c k ep idxs obs mid res m post,
+  ls = pre ++ LLookup c k ep idxs obs :: mid ++ LReturn c res m :: post -> no_close c mid = true ->
+  let g := egen (reorgs_after [] pre) ep in
+  Permutation res (bn asg k ep (resolve (active_after act pre) idxs) g) /\ m = metaf k ep g.
+Proof.
+  intros act ls s H HS HQ pre c k ep idxs obs mid res m post E NC g.
+  apply (answers_equal_bn asg metaf act ls s H HS pre c k ep idxs obs mid res m post E NC).
+  unfold sequential in HQ. rewrite E in HQ.
+  destruct (seq_split pre QIdle (ginit_with act) _ HQ) as [q [Q1 Q2]].
+  { simpl. intros k0 ep0. reflexivity. }
+  simpl in Q2. destruct q as [|c0|e n]; simpl in Q2; try discriminate.
+  - rewrite reorgs_after_app. simpl. rewrite (seq_call_reorgs mid c _ _ Q2 NC).
+    unfold floor_after. rewrite (Q1 k ep), h_reorgs_after. reflexivity.
+  - destruct n as [|[|[|n]]]; discriminate.
+Qed.
+
+End Sequential.
+
+(* ------------------------------------------------------------------------------------------ *)
+(* Closed examples: non-vacuity, the defect repaired by the generation counter, reading notes     *)
+Local Open Scope N_scope.
+
+(* validator 1 has two duties, validator 2 one, validator 3 none; every reorg changes validator 1's *)
+Definition ex_asg (k : kind) (ep : N) (g : nat) : list duty := [(1, 10 + N.of_nat g); (2, 20); (1, 30 + N.of_nat g)].
+Definition ex_meta (k : kind) (ep : N) (g : nat) : N := 1 + N.of_nat g.
+
+(* miss, partial hit with amend, full hit on a validator without duty, reorg + invalidation, refetch *)
+Definition ex_trace : list label :=
+  [ LLookup 0 KProp 1 [1] (Some [1]); LFetch 0 [(1, 10); (1, 30)] 1; LStore 0 true; LReturn 0 [(1, 10); (1, 30)] 1;
+    LLookup 1 KProp 1 [2; 1; 3] (Some [2; 3]); LFetch 1 [(2, 20)] 1; LStore 1 true; LReturn 1 [(1, 10); (1, 30); (2, 20)] 1;
+    LLookup 2 KProp 1 [3] None; LReturn 2 [] 1;
+    LLookup 3 KProp 1 [] None; LReturn 3 [(1, 10); (1, 30); (2, 20)] 1;
+    LReorg 0; LInvalidate KProp 0; LInvalidate KAtt 0; LInvalidate KSync 0;
+    LLookup 4 KProp 1 [1] (Some [1]); LFetch 4 [(1, 11); (1, 31)] 2; LStore 4 true; LReturn 4 [(1, 11); (1, 31)] 2;
+    LTrim KProp 5; LLookup 5 KProp 1 [1] (Some [1]); LFetchErr 5 ].
+
+Lemma ex_trace_accepted :
+  first_reject ex_asg ex_meta true (init_with [1; 2; 3]) ex_trace 0 = None /\
+  sets_only_from [1; 2; 3] ex_trace = true /\ sequential ex_trace = true /\
+  monitor_from ex_asg ex_meta (ginit_with [1; 2; 3]) ex_trace = true /\
+  fmonitor_from (finit_with [1; 2; 3]) ex_trace = true.
+Proof. vm_compute. repeat split. Qed.
+
+(* F10, before the repair (no generation check in storeOrAmend): call 0 fetches before the reorg, the
+   invalidation runs, call 0 stores the pre-reorg duties; call 1, started after the invalidation, is
+   served the pre-reorg duties from the cache. *)
+Definition f10_trace : list label :=
+  [ LLookup 0 KAtt 5 [1; 3] (Some [1; 3]); LFetch 0 [(1, 10); (1, 30)] 1;
+    LReorg 3; LInvalidate KProp 3; LInvalidate KAtt 3; LInvalidate KSync 3;
+    LStore 0 true; LReturn 0 [(1, 10); (1, 30)] 1;
+    LLookup 1 KAtt 5 [1] None; LReturn 1 [(1, 10); (1, 30)] 1 ].
+
+Lemma stale_store_after_invalidate_refuted_before_fix :
+  first_reject ex_asg ex_meta false (init_with [1; 2; 3]) f10_trace 0 = None /\   (* accepted by the unrepaired model *)
+  sets_only_from [1; 2; 3] f10_trace = true /\
+  first_violation_ans ex_asg ex_meta (ginit_with [1; 2; 3]) f10_trace 0 = Some 9%nat /\   (* stale answer *)
+  first_violation_fresh (finit_with [1; 2; 3]) f10_trace 0 = Some 8%nat /\                 (* no refetch *)
+  first_reject ex_asg ex_meta true (init_with [1; 2; 3]) f10_trace 0 = Some 6%nat.         (* the repaired code refuses the store *)
+Proof. vm_compute. repeat split. Qed.
+
+(* Reading note N3 (outside the property: the request is not an index set): a request naming an
+   index twice on the amend path stores that validator's duties twice; a later request for the set {2}
+   is answered with the duty twice. The model mirrors the code (trace accepted), monitor A rejects. *)
+Definition dup_trace : list label :=
+  [ LLookup 0 KProp 1 [3] (Some [3]); LFetch 0 [] 1; LStore 0 true; LReturn 0 [] 1;
+    LLookup 1 KProp 1 [2; 2] (Some [2; 2]); LFetch 1 [(2, 20)] 1; LStore 1 true; LReturn 1 [(2, 20)] 1;
+    LLookup 2 KProp 1 [2] None; LReturn 2 [(2, 20); (2, 20)] 1 ].
+
+Lemma repeated_index_request_diverges :
+  first_reject ex_asg ex_meta true (init_with [1; 2; 3]) dup_trace 0 = None /\
+  sets_only_from [1; 2; 3] dup_trace = false /\
+  first_violation_ans ex_asg ex_meta (ginit_with [1; 2; 3]) dup_trace 0 = Some 9%nat.
+Proof. vm_compute. repeat split. Qed.
+
+(* Trims do not bump the generation: a call in flight during a trim stores the trimmed epoch again
+   (this is why trim_refetches excludes calls in flight); the duties are still the beacon node's. *)
+Definition trim_straddle_trace : list label :=
+  [ LLookup 0 KAtt 1 [1] (Some [1]); LFetch 0 [(1, 10); (1, 30)] 1; LTrim KAtt 10; LStore 0 true;
+    LReturn 0 [(1, 10); (1, 30)] 1; LLookup 1 KAtt 1 [1] None; LReturn 1 [(1, 10); (1, 30)] 1 ].
+
+Lemma trim_straddle_restores :
+  first_reject ex_asg ex_meta true (init_with [1; 2; 3]) trim_straddle_trace 0 = None /\
+  monitor_from ex_asg ex_meta (ginit_with [1; 2; 3]) trim_straddle_trace = true /\
+  fmonitor_from (finit_with [1; 2; 3]) trim_straddle_trace = true.
+Proof. vm_compute. repeat split. Qed.
